@@ -296,7 +296,8 @@ def run(ck):
     ck.phase("llgo+verifgen built")
     # ---------- T2: IR of every generated function vs the recipe ----------
     d = os.path.join(ck.work, "irpkg")
-    src = "package main\n\n" + "\n".join(s for _, s, _, _ in fs) + "\n\nfunc main() {}\n"
+    fsrc_cmp = "\n".join("func fc_%s_%s(x, y %s) bool { return x %s y }" % (n, t, t, sym) for t in ("float32", "float64") for n, sym, g in CMPS)
+    src = "package main\n\n" + "\n".join(s for _, s, _, _ in fs) + "\n" + fsrc_cmp + "\n\nfunc main() {}\n"
     e2e.write_module(d, {"main.go": src})
     rc, ir = vlib.sh([gen, "."], cwd=d, env=L.env(), timeout=600)
     fns = ll2v.split_functions(ir) if rc == 0 else {}
@@ -327,6 +328,20 @@ def run(ck):
         else:
             bad_fixed = {int(x) for x in re.findall(r"\d+", mf.group(1))}
             bad_old = {int(x) for x in re.findall(r"\d+", mo.group(1))}
+    # float comparison predicates: the fcmp predicate emitted for each operator vs fpred_of
+    fpreds, fbadp = [], None
+    for t in ("float32", "float64"):
+        for n, sym, g in CMPS:
+            f = fns.get("verifprog.fc_%s_%s" % (n, t))
+            m = re.search(r"fcmp (\w+) (?:float|double)", "\n".join(f[1])) if f else None
+            fpreds.append((g, m.group(1).upper() if m else "UNO", "fc_%s_%s" % (n, t)))
+    text = "From LLGoV Require Import C02.Model.\nDefinition FB := Eval vm_compute in map (fun x => fpred_eqb (snd x) (fpred_of (fst x))) [" + \
+        "; ".join("(%s, %s)" % (g, p) for g, p, _ in fpreds) + "].\nPrint FB.\n"
+    rc, out = ck.coq_run(text, "c02_fcmp")
+    okp = rc == 0 and "false" not in out and out.count("true") == len(fpreds)
+    ck.obligations.append(("gen_fcmp_predicates_match (12 functions)", okp, "vm_compute; emitted: %s" % [(n, p) for g, p, n in fpreds]))
+    if not okp:
+        ck.broken.append("obligation:gen_fcmp_predicates_match")
     nmatch = len(terms) - len(bad_fixed)
     ck.obligations.append(("gen_ir_matches_recipes (%d functions)" % len(terms), not bad_fixed and not untrans,
                            "vm_compute; mismatching: %s; untranslatable: %s" % ([terms[i][0] for i in sorted(bad_fixed)][:8], untrans[:5])))
